@@ -402,6 +402,73 @@ def run_check(tier, seed):
                           dict(original=repr(t0), skeleton=gsk, declared={k_: str(v_) for k_, v_ in ctx.items()}, error=msg), key='C08:erasure-rejected:multi-binder')
         run.count(('multi', gsk), nontrivial=res is not None)
 
+    # ---- a variable used several times: only ONE occurrence (the first, a middle one or the last) carries an annotation,
+    #      the true type or a conflicting one; constants and binders keep their types, so the other occurrences are determined
+    #      by their context before / after the annotated one is met
+    def one_annotation(t0, name, which, T_ann):
+        count = [0]
+
+        def rec(t):
+            if t.is_var():
+                if t.name == name:
+                    count[0] += 1
+                    return Var(t.name, T_ann if count[0] == which else None)
+                return Var(t.name, None)
+            if t.is_svar():
+                return SVar(t.name, None)
+            if t.is_const():
+                return Const(t.name, t.T)
+            if t.is_comb():
+                f_ = rec(t.fun)
+                return Comb(f_, rec(t.arg))
+            if t.is_abs():
+                return Abs(t.var_name, t.var_T, rec(t.body))
+            return Bound(t.n)
+        return rec(t0)
+
+    def occurrences(t, name):
+        if t.is_var():
+            return 1 if t.name == name else 0
+        if t.is_comb():
+            return occurrences(t.fun, name) + occurrences(t.arg, name)
+        if t.is_abs():
+            return occurrences(t.body, name)
+        return 0
+    n_one = 0
+    for i in range(400 if tier == 'quick' else 5000):
+        if n_one >= (60 if tier == 'quick' else 800):
+            break
+        t0 = no_stvars(g.closed(BoolType, r.choice([2, 3, 4])))
+        if not consistent_vars(t0):
+            continue
+        try:
+            t0.checked_get_type()
+            theory.thy.check_term(t0)
+        except RecursionError:
+            raise
+        except Exception:
+            continue
+        multi = [v for v in t0.get_vars() if occurrences(t0, v.name) >= 2]
+        if not multi:
+            continue
+        v = r.choice(multi)
+        k_occ = occurrences(t0, v.name)
+        which = r.choice([1, k_occ, r.randint(1, k_occ)])
+        conflicting = r.random() < 0.6
+        T_ann = g.mutate_type(v.T) if conflicting else v.T
+        sk = one_annotation(t0, v.name, which, T_ann)
+        gsk = g_sk(sk)
+        res, err, msg = run_infer(sk, {})
+        n_one += 1
+        run.stat('one-annotation:%s:%s' % ('conflicting' if conflicting else 'true', 'ok' if res is not None else err))
+        if err and err != 'TypeInferenceException':
+            run.violation('property', 'type_infer fails with a foreign exception %s on a skeleton with one annotated occurrence' % err,
+                          dict(original=repr(t0), skeleton=gsk, error=msg), key='C08:foreign-exception:' + err)
+        if res is not None:
+            exprs.append('infer_diag %s [] [] %s %s' % (sig_expr(res), gsk, g_tm(res)))
+            meta.append((t0, gsk, {}, res, 'one-annotation' + (':conflicting' if conflicting else ''), 'none'))
+        run.count(('one-annotation', gsk), nontrivial=res is not None)
+
     # ---- ill-typed skeletons
     x, f = lambda: Var('x', None), lambda: Var('f', None)
     bad = [
